@@ -196,6 +196,15 @@ def e_BoolOp(self, n, st):
 
 def e_UnaryOp(self, n, st):
     v = self.eval(n.operand, st)
+    return unary_value(self, n.op, v, n)
+
+
+def unary_value(self, op, v, n):
+    """-v / +v / not v on an abstract value (shared by the operator and numpy.negative / numpy.positive)"""
+    class _N:      # the code below reads n.op only
+        pass
+    n = _N()
+    n.op = op
     if isinstance(n.op, ast.Not):
         t = self.truth(v, n)
         if t is not None:
@@ -210,6 +219,7 @@ def e_UnaryOp(self, n, st):
     nv = tonum(v)
     if nv is not None:
         r = nv.copy()
+        r.intdt = nv.intdt
         if isinstance(n.op, ast.USub):
             r.nonneg = False
             r.ex = (-nv.ex) if nv.ex is not None else None
@@ -328,6 +338,11 @@ def num_add(self, a, b, node, what='add', sub=False):
         if sa is not None and sb is not None:
             r.sx = sa - sb if sub else sa + sb
     r.role = None
+    if what == 'add' and not a.zero and not b.zero:
+        # sign parity of the two terms relative to the un-negated data they derive from (see Num.neg)
+        sb_ = bool(b.neg) != bool(sub)
+        self.events.append(('sum-signs', node, bool(a.neg), sb_, a.deg.get('s'), r.shape, self.cur.qname if self.cur else ''))
+        r.neg = bool(a.neg) if bool(a.neg) == sb_ else False
     return r
 
 
@@ -394,6 +409,7 @@ def num_mul(self, a, b, node, div=False, va=None, vb=None):
         except Exception:
             r.sz = None
     r.nonneg = a.nonneg and b.nonneg
+    r.neg = bool(a.neg) != bool(b.neg)          # sign parity of a product / quotient
     if not div and ((a.conj_of is not None and a.conj_of == b.uid) or (b.conj_of is not None and b.conj_of == a.uid)):
         # z * conj(z) = |z|^2: real and non-negative whatever the dtype
         r.rv = True
@@ -479,6 +495,33 @@ def _sym(x):
 
 
 def binop(self, op, va, vb, node):
+    r_ = _binop(self, op, va, vb, node)
+    _int_dtype(self, op, va, vb, r_, node)
+    return r_
+
+
+def _int_dtype(self, op, va, vb, r, node):
+    """integer-dtype tracking: sums / products / integer powers of integer-typed data stay in that (narrow) dtype"""
+    if not isinstance(r, Num):
+        return
+    def isint(v):
+        return (isinstance(v, Num) and v.intdt) or isinstance(v, IntV) or (isinstance(v, Const) and isinstance(v.v, int) and not isinstance(v.v, bool))
+    def data(v):
+        return isinstance(v, Num) and v.intdt
+    if not (data(va) or data(vb)) or not (isint(va) and isint(vb)):
+        return
+    if isinstance(op, (ast.Add, ast.Sub, ast.Mult)):
+        r.intdt = True
+        if isinstance(op, ast.Mult) and data(va) and data(vb):
+            self.events.append(('int-arith', node, 'product', self.cur.qname if self.cur else ''))
+    elif isinstance(op, ast.Pow) and data(va) and not data(vb):
+        r.intdt = True
+        e = vb.v if isinstance(vb, Const) else None
+        if e is None or e >= 2:
+            self.events.append(('int-arith', node, 'power', self.cur.qname if self.cur else ''))
+
+
+def _binop(self, op, va, vb, node):
     if isinstance(op, ast.Sub) and isinstance(va, Num) and isinstance(vb, Num) and va.is_array and va.mid is not None \
             and va.mid == vb.mid and va.whole and vb.whole:
         # D8: both operands are the same storage -- the difference is identically zero
@@ -547,11 +590,12 @@ def binop(self, op, va, vb, node):
         return num_add(self, na, nb, node, 'add')
     if isinstance(op, ast.Sub):
         return num_add(self, na, nb, node, 'add', sub=True)
-    if isinstance(op, (ast.Mult, ast.MatMult)):
-        r = num_mul(self, na, nb, node, va=va, vb=vb)
-        if isinstance(op, ast.MatMult):
-            r.shape = None
-        return r
+    if isinstance(op, ast.MatMult):
+        # a @ b is numpy.dot for vectors and matrices
+        from .prims import p_bilinear
+        return p_bilinear(self, 'numpy.dot', [va, vb], {}, node, None)
+    if isinstance(op, ast.Mult):
+        return num_mul(self, na, nb, node, va=va, vb=vb)
     if isinstance(op, (ast.Div, ast.FloorDiv)):
         return num_mul(self, na, nb, node, div=True, va=va, vb=vb)
     if isinstance(op, ast.Pow):
@@ -999,6 +1043,38 @@ def attr_of(self, v, attr, st, n):
     return TopV('attr')
 
 
+def _append_charge(self, name, recv, v, call, st):
+    """D4: charges by position of a list grown by exactly one `name.append(v)` per iteration of the innermost range loop"""
+    from . import charge as Q
+    from .core import seq_charges
+    loops = self.frames[-1].loops
+    if not loops or not isinstance(v, Num) or v.shape != () or not isinstance(v.q, Aff):
+        return None
+    info = loops[-1]
+    loop = info.get('node')
+    lo = info.get('range_lo')
+    if loop is None or lo is None or not isinstance(loop, ast.For) or not isinstance(loop.target, ast.Name):
+        return None
+    # exactly one append to this list per iteration: a top-level statement of the loop body, the only one in the body
+    tops = [s_ for s_ in loop.body if isinstance(s_, ast.Expr) and s_.value is call]
+    alls = [c_ for s_ in loop.body for c_ in ast.walk(s_) if isinstance(c_, ast.Call) and isinstance(c_.func, ast.Attribute)
+            and c_.func.attr in ('append', 'extend', 'insert', 'pop', 'remove') and isinstance(c_.func.value, ast.Name) and c_.func.value.id == name]
+    if len(tops) != 1 or len(alls) != 1:
+        return None
+    n0 = info.get('len0', {}).get(name)
+    kv = st.env.get(loop.target.id)
+    ka = _asint(kv)
+    if n0 is None or ka is None or ka.a is None:
+        return None
+    pos = ka.a - lo + n0
+    base = seq_charges(recv)
+    if base is None:
+        base = 'any' if (isinstance(recv, Tup) and not recv.items) else None
+    if base is None:
+        return None
+    return Q.q_store_scalar(self, base, pos, v.q, call)
+
+
 # ----------------------------------------------------------------------------- calls
 def e_Call(self, n, st):
     f = n.func
@@ -1014,7 +1090,10 @@ def e_Call(self, n, st):
                 if isinstance(recv, Tup):
                     for i in recv.items:
                         e = join(e, i)
-                st.env[f.value.id] = SeqV(join(e, v), None, recv.taint | self.pc)
+                new = SeqV(join(e, v), None, recv.taint | self.pc)
+                if self.d4:
+                    new.qarr = _append_charge(self, f.value.id, recv, v, n, st)
+                st.env[f.value.id] = new
             return Const(None)
         if f.attr == 'resize' and isinstance(recv, Num):
             args = [self.eval(a, st) for a in n.args]
@@ -1024,7 +1103,15 @@ def e_Call(self, n, st):
             self.events.append(('resize-zero', n, fnq))
             if recv.view_of:
                 self.events.append(('inplace', n, recv.view_of, fnq))      # ndarray.resize works in place
-            st.env[f.value.id] = recv.copy(shape=(ia.a if ia is not None else None,), taint=recv.taint | taint_of(args[0]) if args else recv.taint)
+            newv = recv.copy(shape=(ia.a if ia is not None else None,), taint=recv.taint | taint_of(args[0]) if args else recv.taint)
+            if recv.seg is not None and ia is not None and ia.a is not None and recv.shape and recv.shape[0] is not None:
+                # ndarray.resize(n) keeps the data at the front and fills the new tail with zeros
+                from . import segmap
+                extra = ia.a - recv.shape[0]
+                newv.seg = segmap.normalise(list(recv.seg) + [segmap.Seg(extra, '0', 0, 1)])
+            newv.mid, newv.whole, newv.view_of = recv.mid, recv.whole, recv.view_of
+            self.events.append(('padded', n, newv, fnq))
+            st.env[f.value.id] = newv
             return Const(None)
     # super(C, self).m(...)
     if isinstance(f, ast.Attribute) and isinstance(f.value, ast.Call) and isinstance(f.value.func, ast.Name) \
@@ -1268,7 +1355,13 @@ def index_value(self, v, idx, node):
     if isinstance(v, SeqV):
         if isinstance(idx, SliceV):
             return SeqV(v.elem, None, v.taint)
-        return (v.elem if v.elem is not None else TopV('empty seq')).with_taint(v.taint | taint_of(idx))
+        r_ = (v.elem if v.elem is not None else TopV('empty seq')).with_taint(v.taint | taint_of(idx))
+        if self.d4 and isinstance(r_, Num) and v.qarr is not None:
+            from . import charge as Q
+            ia_ = _asint(idx)
+            r_ = r_.copy()
+            r_.q = Q.q_index(v.qarr, ia_.a) if (ia_ is not None and ia_.a is not None) else None
+        return r_
     nv = tonum(v) if isinstance(v, (Num, IntV, Const)) else None
     if nv is not None and isinstance(v, Num):
         t = nv.taint | taint_of(idx)
@@ -1317,6 +1410,7 @@ def index_value(self, v, idx, node):
         out.extend(shape[ax:])
         r = nv.copy(shape=tuple(out), taint=t)
         r.ex = None
+        r.intdt = nv.intdt
         r.col0, r.src_uid = None, None
         if len(shape) == 1 and len(idxs) == 1 and isinstance(idxs[0], Num) and idxs[0].grid is not None and idxs[0].shape is not None \
                 and len(idxs[0].shape) == 2 and isinstance(v, Num) and v.seg is not None:
@@ -1493,10 +1587,25 @@ def _axis_desc(ix, n):
     return None
 
 
+def value_key(v):
+    """identity of an integer-like value for "has this index operand changed since" tests"""
+    if isinstance(v, IntV):
+        return ('int', repr(v.a))
+    if isinstance(v, Const):
+        return ('const', repr(v.v))
+    return ('obj', id(v))
+
+
 def e_Subscript(self, n, st):
     v = self.eval(n.value, st)
     idx = self.eval(n.slice, st)
-    return self.index_value(v, idx, n)
+    r = self.index_value(v, idx, n)
+    if isinstance(r, Num) and isinstance(v, Num) and v.shape is not None and len(v.shape) == 2 and isinstance(n.value, ast.Name) \
+            and not isinstance(idx, (Tup, SliceV)) and _asint(idx) is not None and r.shape is not None and len(r.shape) == 1:
+        # row = M[e]: a view of one row of the local matrix M (stores through it land in M)
+        deps = {x.id: value_key(st.env.get(x.id)) for x in ast.walk(n.slice) if isinstance(x, ast.Name)}
+        r.rowview = (n.value.id, n.slice, deps)
+    return r
 
 
 # ----------------------------------------------------------------------------- comprehensions
